@@ -35,5 +35,5 @@ HARNESSES += [I('S_invoke_and_wait', ['_dispatch_apply_invoke_and_wait'], True),
 ASSUMPTIONS = ['n <= 6 iterations, reported parallelism <= 4; targets: default global queue, a serial queue, a concurrent queue whose width is set to 2 or 3 (partial width grants)',
                'helper scheduling: one pool worker, which starts its first helper either during a chosen invocation of the caller or only when the caller waits; histories are otherwise sequential',
                'nested dispatch_apply and DISPATCH_APPLY_AUTO are not covered']
-LEVEL_TEXT = 'Tier H: dispatch_apply_f through the real apply.c for n in 0..4 (thorough 6), reported parallelism 1..3, on the default global queue, a serial queue and a width-2 concurrent queue, with the pool worker starting its first helper during a chosen invocation of the caller or only when the caller waits: every index exactly once, no other index, returns after all, serial order, reserved width given back and never exceeded by the number of participants. Tier S: one participant (_dispatch_apply_invoke / _invoke_and_wait) from an arbitrary state of the shared record with other helpers claiming indices in between: claims distinct and in range, the caller never returns while invocations are outstanding, the record is freed by the last participant.'
+LEVEL_TEXT = 'Tier H: dispatch_apply_f through the real apply.c for n in 0..4 (thorough 6), reported parallelism 1..3, on the default global queue, a serial queue and a width-2 concurrent queue, with the pool worker starting its first helper during a chosen invocation of the caller or only when the caller waits: every index exactly once, no other index, returns after all, serial order, reserved width given back and never exceeded by the number of participants. Tier S: one participant (_dispatch_apply_invoke / _invoke_and_wait) from an arbitrary state of the shared record with other helpers claiming indices in between: claims distinct and in range, the caller never returns while invocations are outstanding, the record is freed by the last participant. Also a concurrent queue targeting a NARROWER concurrent queue (partial width grant below: the excess reserved above is given back, both state words restored).'
 LEVEL_NOTE = 'n <= 6; one pool worker; nested dispatch_apply and DISPATCH_APPLY_AUTO not covered.'
